@@ -20,8 +20,10 @@ STACK_TOP = {'usr': G.STACKS + 0x200, 'fiq': G.STACKS + 0x280, 'irq': G.STACKS +
 DPTR = 6                      # r6 holds DATA+0x400 in every main program
 DBASE = G.DATA + 0x400
 _SR = ['srs_rfe', 'srs_rfe_iadb', 'srs_rfe_ibda', 'srs_rfe_daib']         # SRSDB+RFEIA, SRSIA+RFEDB, SRSIB+RFEDA, SRSDA+RFEIB
-RETURNS_ARM = {'irq': ['subs', 'ldm^'] + _SR, 'fiq': ['subs', 'ldm^'] + _SR, 'svc': ['movs', 'ldm^'] + _SR,
-               'und': ['movs', 'ldm^'] + _SR, 'dabt': ['subs8', 'ldm^8'] + [x + '8' for x in _SR]}
+# 'adds0' .. 'bics0': the other (deprecated but architected) data-processing forms of an exception return with an unchanged LR
+_DP0 = ['adds0', 'orrs0', 'eors0', 'bics0']
+RETURNS_ARM = {'irq': ['subs', 'ldm^'] + _SR, 'fiq': ['subs', 'ldm^'] + _SR, 'svc': ['movs', 'ldm^'] + _SR + _DP0,
+               'und': ['movs', 'ldm^'] + _SR + _DP0, 'dabt': ['subs8', 'ldm^8'] + [x + '8' for x in _SR]}
 # 'it_subs': the return instruction is the (last and only) slot of an IT block of the handler itself
 RETURNS_THUMB = {'irq': ['subs', 'srs_rfe', 'srs_rfe_iadb', 'it_subs'], 'fiq': ['subs', 'srs_rfe', 'srs_rfe_iadb', 'it_subs'], 'svc': ['movs', 'srs_rfe', 'srs_rfe_iadb', 'it_subs'],
                  'und': ['movs', 'srs_rfe', 'srs_rfe_iadb', 'it_subs'], 'dabt': ['subs8', 'srs_rfe8', 'srs_rfe_iadb8', 'it_subs8']}
@@ -51,6 +53,9 @@ def handler_arm(kind, ret, clobber=True, mode=None):
         w = [A.push(0x100F)] + body + [A.pop(0x100F)]
         w.append(A.movs_pc_lr() if (base == 'movs' and adj == 0) else A.subs_pc_lr(adj))
         return w
+    if base in _DP0:
+        assert adj == 0
+        return [A.push(0x100F)] + body + [A.pop(0x100F), A.dp_imm({'adds0': 'add', 'orrs0': 'orr', 'eors0': 'eor', 'bics0': 'bic'}[base], 15, 14, 0, s=1)]
     if base == 'ldm^':
         w = ([A.dp_imm('sub', 14, 14, adj)] if adj else []) + [A.push(0x500F)] + body + [A.ldstm(1, 13, 0x900F, p=0, u=1, w=1, s=1)]
         return w
